@@ -293,11 +293,14 @@ def templates(tier):
          ('inline', lambda c: [32, 45, 45, c[0], 45, 45, 32], 1, 'c')]
     if tier != 'quick':
         t.append(('ws2', lambda c: [c[0], c[1]], 2, 'ws'))
+        t.append(('tight-line', lambda c: [45, 45, c[0], 10], 1, 'c'))
+        t.append(('tight-inline', lambda c: [45, 45, c[0], 45, 45], 1, 'c'))
     return t
 
 
 # quick tier: white-space at every boundary plus ONE comment form per boundary (rotating), each with one symbolic character
-QUICK_COMMENTS = [('block', lambda c: [47, 42, c[0], 42, 47], 1, 'c'), ('line', lambda c: [32, 45, 45, c[0], 10], 1, 'c'), ('inline', lambda c: [32, 45, 45, c[0], 45, 45, 32], 1, 'c')]
+QUICK_COMMENTS = [('block', lambda c: [47, 42, c[0], 42, 47], 1, 'c'), ('line', lambda c: [32, 45, 45, c[0], 10], 1, 'c'), ('inline', lambda c: [32, 45, 45, c[0], 45, 45, 32], 1, 'c'),
+                  ('tight-line', lambda c: [45, 45, c[0], 10], 1, 'c'), ('tight-inline', lambda c: [45, 45, c[0], 45, 45], 1, 'c')]
 
 
 def job_lexer(prog, chk, mi, k, n, tier):
@@ -327,7 +330,7 @@ def job_lexer(prog, chk, mi, k, n, tier):
         work = []
         for j, b in enumerate(bs):
             work.append((b, templates(tier)[0]))
-            work.append((b, QUICK_COMMENTS[(j + mi) % 3]))
+            work.append((b, QUICK_COMMENTS[(j + mi) % len(QUICK_COMMENTS)]))
     try:
         for (pos, width), (tname, mk, nsym, alpha) in work[k::n]:
             cs = [z3.BitVec(f"c{i}", 32) for i in range(nsym)]
@@ -430,7 +433,8 @@ FRAGMENTS = [
 FRAG_TAIL = " Zz"
 
 
-CMT_FORMS = [[47, 42, 120, 42, 47], [32, 45, 45, 120, 10], [32, 45, 45, 120, 45, 45, 32]]
+# the last two start and end directly at the neighbouring tokens (`low--x--..8`): `--` cannot be part of a name
+CMT_FORMS = [[47, 42, 120, 42, 47], [32, 45, 45, 120, 10], [32, 45, 45, 120, 45, 45, 32], [45, 45, 120, 10], [45, 45, 120, 45, 45]]
 
 
 def frag_work(tier):
@@ -443,7 +447,7 @@ def frag_work(tier):
     global PUNCT_MORE
     PUNCT_MORE = True
     for fi, (entry, text) in enumerate(FRAGMENTS):
-        for mode in ('wsall', 'lfall', 'cmt0', 'cmt1', 'cmt2'):
+        for mode in ('wsall', 'lfall', 'cmt0', 'cmt1', 'cmt2', 'cmt3', 'cmt4'):
             work.append((fi, None, mode))
         if tier != 'quick':
             for b in boundaries(text):
@@ -501,7 +505,7 @@ def job_frag(prog, chk, k, n, tier):
                     elif tmpl == 'lfall':
                         pieces.append([10])
                     else:
-                        pieces.append(list(CMT_FORMS[(j + int(tmpl[3])) % 3]))
+                        pieces.append(list(CMT_FORMS[(j + int(tmpl[3])) % len(CMT_FORMS)]))
                     last = pos + width
                 pieces.append(full[last:])
                 where = f"{tmpl} at all {len(bs)} boundaries"
